@@ -217,8 +217,42 @@ pub fn run(ctx: &Ctx) -> Rep {
     let n7 = r7.distinct;
     rep.merge(r7);
 
+    // ---- class-targeting set: every strength class as the best hand, in seeded slot orders ------
+    // For each of the 7462 classes, its representative five cards plus seeded extra cards, in K seeded
+    // slot orders per size: rare classes (e.g. the 188 six-card sets holding a royal flush) are then
+    // observed out of canonical order whatever the seed, not only when the per-hand sampling picks them.
+    let k_orders = ctx.pick(1, 8, 32) as usize;
+    let classes: Vec<usize> = (1..=m.distinct_keys).filter(|o| !ctx.smoke() || o % 97 == 0).collect();
+    let sc = crate::drive::par_run(ctx, classes.len(), mk, |st, ci| {
+        let o = classes[ci];
+        let base = m.representative[o];
+        let mut rng = Rng::new(seed, 0xC03_0000 + o as u64);
+        for _ in 0..k_orders {
+            for n in [6usize, 7] {
+                let mut cards: Vec<u8> = base.to_vec();
+                while cards.len() < n {
+                    let x = rng.below(52) as u8;
+                    if !cards.contains(&x) {
+                        cards.push(x);
+                    }
+                }
+                rng.shuffle(&mut cards);
+                if n == 6 {
+                    let a: [u8; 6] = cards.clone().try_into().unwrap();
+                    check6(st, &m, &a);
+                } else {
+                    let a: [u8; 7] = cards.clone().try_into().unwrap();
+                    check7(st, &m, &a);
+                }
+                st.rep.add("class_target_hands", 1);
+            }
+        }
+    });
+    let (rc, xc) = merge_states(sc);
+    rep.merge(rc);
+
     let mut acc = mk();
-    for x in x5.into_iter().chain(x6).chain(x7) {
+    for x in x5.into_iter().chain(x6).chain(x7).chain(xc) {
         acc.reordered += x.reordered;
         acc.witness_is_prefix += x.witness_is_prefix;
         acc.identity_orders += x.identity_orders;
@@ -248,9 +282,10 @@ pub fn run(ctx: &Ctx) -> Rep {
     rep.rule = format!(
         "every 5-, 6- and 7-subset of the deck (enumerated once each = distinct). 6/7: canonical slot order plus {} seeded order(s) for 1-in-{} / 1-in-{} hands, \
          each witness checked for membership, distinctness, strict descending order, re-ranking through the crate and through the rules oracle; \
-         5: identity clause in {}",
+         5: identity clause in {}; plus every one of the 7462 classes as a 6- and a 7-card hand in {} seeded slot orders",
         perms_each, perm_rate_6, perm_rate_7,
-        if all_orders5 { "all 120 slot orders" } else { "canonical + one seeded slot order" }
+        if all_orders5 { "all 120 slot orders" } else { "canonical + one seeded slot order" },
+        k_orders
     );
     rep
 }
